@@ -1,2 +1,63 @@
-(* props/C10.v — placeholder until the theorems of this property are added. *)
-From Prophy Require Import Bytes Schema Layout Wire PcModel.
+(* props/C10.v — the Python message API keeps every reachable message state valid.
+   The reference model (spec/ApiSpec.v) is what the Python implementation is compared with on
+   generated API histories (checks/C10.py, CheckLib.api_history_case); these theorems are the
+   "consequently" half of the property, proved of that reference model for every schema and
+   every operation sequence. *)
+From Coq Require Import ZArith List Bool Lia.
+From Prophy Require Import Bytes Schema Layout Wire Src PyStatics PyEncode ApiSpec Views PyEncodeFacts ApiFacts.
+Import ListNotations.
+Local Open Scope Z_scope.
+
+(* every state reachable from a fresh message by any sequence of API operations (performed or
+   rejected, at any nesting depth) is valid: scalars in range, enums among their enumerators,
+   bytes within 0..255, fixed arrays full, limited arrays within their limit, exactly the
+   discriminated union arm present, every counter equal to the length of the first array it counts *)
+Theorem C10_reachable_valid :
+  forall t ops, legal t = true -> valid t (run_ops t ops (default t)) = true.
+Proof. exact api_reachable_valid. Qed.
+Print Assumptions C10_reachable_valid.
+
+(* the same over histories that involve two messages, copy_from and extend() from one to the other *)
+Theorem C10_histories_valid :
+  forall t hs, legal t = true ->
+    valid t (fst (run_hist t hs (default t, default t))) = true /\
+    valid t (snd (run_hist t hs (default t, default t))) = true.
+Proof. exact hist_reachable_valid. Qed.
+Print Assumptions C10_histories_valid.
+
+(* a rejected operation (ProphyError / IndexError / ValueError, or not an operation at all)
+   leaves the message unchanged; a performed one yields exactly the reported state *)
+Theorem C10_rejected_unchanged :
+  forall t v op, (forall nv, snd (api_step t v op) <> ADone nv) -> fst (api_step t v op) = v.
+Proof. exact api_rejected_unchanged. Qed.
+Print Assumptions C10_rejected_unchanged.
+
+Theorem C10_performed_reported :
+  forall t v op nv, snd (api_step t v op) = ADone nv -> fst (api_step t v op) = nv.
+Proof. exact api_performed_reported. Qed.
+Print Assumptions C10_performed_reported.
+
+(* "can be encoded": every reachable state is well-typed for the encoder, and the Python encoder
+   model returns its canonical wire image, unless it meets one of the two encode-time refusals
+   [enc_guard] spells out: arrays that share a counter differ in length (documented), or a count
+   does not fit the type of its counter (known finding KF-F) *)
+Theorem C10_reachable_encodable :
+  forall e fs ops, legal (TStruct fs) = true ->
+    let v := run_ops (TStruct fs) ops (default (TStruct fs)) in
+    enc_guard (TStruct fs) v = true ->
+    wt (TStruct fs) v = true /\ py_enc e (TStruct fs) v = Ok (wire e (TStruct fs) v).
+Proof.
+  intros e fs ops Hl v Hg.
+  assert (Hw : wt (TStruct fs) v = true) by (apply valid_encodable; [exact Hl|apply api_reachable_valid; exact Hl|exact Hg]).
+  split; [exact Hw|]. apply py_enc_canonical; [reflexivity|exact Hl|exact Hw].
+Qed.
+Print Assumptions C10_reachable_encodable.
+
+(* non-vacuity: a legal schema with a limited array, an over-limit extend is rejected, an in-limit one performed *)
+Example C10_example :
+  let t := TStruct [(FPlain, TScalar U8); (FLimited 2 0, TScalar U16)] in
+  legal t = true /\
+  snd (api_step t (default t) ([], AExtend 1 (PList [PInt 1; PInt 2; PInt 3]))) = ARaise EProphy /\
+  fst (api_step t (default t) ([], AExtend 1 (PList [PInt 1; PInt 2]))) = VStruct [VInt 2; VList [VInt 1; VInt 2]] /\
+  enc_guard t (VStruct [VInt 2; VList [VInt 1; VInt 2]]) = true.
+Proof. vm_compute. repeat split; reflexivity. Qed.
